@@ -66,9 +66,10 @@ namespace occa {
   }
 
   memoryPool& memoryPool::swap(memoryPool &m) {
-    modeMemoryPool_t *modeMemoryPool_ = modeMemoryPool;
-    modeMemoryPool   = m.modeMemoryPool;
-    m.modeMemoryPool = modeMemoryPool_;
+    // Go through the reference rings, the handles are registered in them
+    memoryPool tmp(*this);
+    *this = m;
+    m = tmp;
     return *this;
   }
 
